@@ -170,7 +170,7 @@ where
                     value = Some(map.next_value()?);
                 }
                 "InlineBinary" => {
-                    if values.is_some() {
+                    if value.is_some() {
                         return Err(A::Error::custom(
                             "\"InlineBinary\" conflicts with \"Value\"",
                         ));
@@ -186,7 +186,7 @@ where
                     inline_binary = Some(val);
                 }
                 "BulkDataURI" => {
-                    if values.is_some() {
+                    if value.is_some() {
                         return Err(A::Error::custom("\"BulkDataURI\" conflicts with \"Value\""));
                     }
 
@@ -534,6 +534,17 @@ mod tests {
                 )
             )),
         )
+    }
+
+    #[test]
+    fn conflicting_value_fields_are_an_error() {
+        // "Value" followed by "InlineBinary" used to panic
+        let serialized = r#"{"00420011":{"vr":"OB","Value":[1],"InlineBinary":"AAEC"}}"#;
+        assert!(from_str::<InMemDicomObject>(serialized).is_err());
+        let serialized = r#"{"00420011":{"vr":"OB","InlineBinary":"AAEC","Value":[1]}}"#;
+        assert!(from_str::<InMemDicomObject>(serialized).is_err());
+        let serialized = r#"{"00420011":{"vr":"OB","Value":[1],"BulkDataURI":"http://localhost/bulk"}}"#;
+        assert!(from_str::<InMemDicomObject>(serialized).is_err());
     }
 
     #[test]
